@@ -341,7 +341,35 @@ func c17E2E(r *vReport, pat string) {
 	if pat == "" {
 		return // the rule leaves empty values to the parser's own diagnostic
 	}
-	src := "on:\n  push:\n    branches: [" + c17YAMLQuote(pat) + "]\n    paths:\n      - " + c17YAMLQuote(pat) + "\njobs:\n  a:\n    runs-on: ubuntu-latest\n    steps:\n      - run: echo\n"
+	q := c17YAMLQuote(pat)
+	tail := "jobs:\n  a:\n    runs-on: ubuntu-latest\n    steps:\n      - run: echo\n"
+	type epos struct {
+		line, col int
+		errs      []InvalidGlobPattern
+		which     string
+	}
+	refE, pathE := ValidateRefGlob(pat), ValidatePathGlob(pat)
+	// the same string under several keys of one workflow: each occurrence is validated by the
+	// validator of its own key, whatever was validated before it
+	for li, lay := range []struct {
+		src string
+		pos []epos
+	}{
+		{"on:\n  push:\n    branches: [" + q + "]\n    paths:\n      - " + q + "\n" + tail, []epos{{3, 16, refE, "ref"}, {5, 9, pathE, "path"}}},
+		{"on:\n  pull_request:\n    paths: [" + q + "]\n  push:\n    branches: [" + q + "]\n    tags-ignore:\n      - " + q + "\n" + tail, []epos{{3, 13, pathE, "path"}, {5, 16, refE, "ref"}, {7, 9, refE, "ref"}}},
+		{"on:\n  push:\n    tags: [" + q + "]\n  pull_request:\n    paths-ignore: [" + q + "]\n    branches-ignore: [" + q + "]\n" + tail, []epos{{3, 12, refE, "ref"}, {5, 20, pathE, "path"}, {6, 23, refE, "ref"}}},
+	} {
+		c17E2ELayout(r, pat, li, lay.src, func() [][4]any {
+			var out [][4]any
+			for _, p := range lay.pos {
+				out = append(out, [4]any{p.line, p.col, p.errs, p.which})
+			}
+			return out
+		}())
+	}
+}
+
+func c17E2ELayout(r *vReport, pat string, layout int, src string, positions [][4]any) {
 	res := vLint(src, nil)
 	r.Transitions++
 	r.Validated++
@@ -359,11 +387,12 @@ func c17E2E(r *vReport, pat string) {
 	// the rule is only claimed for scalars without escapes (C07), so positions are compared only
 	// for escape-free patterns.
 	escapeFree := ascii && !strings.ContainsAny(pat, "\\\"")
-	for _, pos := range []struct {
-		line, col int
-		errs      []InvalidGlobPattern
-		which     string
-	}{{3, 16, ValidateRefGlob(pat), "ref"}, {5, 9, ValidatePathGlob(pat), "path"}} {
+	for _, p4 := range positions {
+		pos := struct {
+			line, col int
+			errs      []InvalidGlobPattern
+			which     string
+		}{p4[0].(int), p4[1].(int), p4[2].([]InvalidGlobPattern), fmt.Sprintf("%s-layout%d", p4[3], layout)}
 		var got []vDiag
 		for _, d := range vDiags(res.Errs) {
 			if d.Line == pos.line && d.Kind == "glob" {
@@ -404,7 +433,7 @@ func TestVerifC17(t *testing.T) {
 	r.Bounds["max_length"] = n
 	r.Bounds["alphabet"] = string(c17Alphabet)
 	r.Bounds["e2e_max_length"] = 3
-	r.Extra["rule"] = "all strings of length <= n over the 19-symbol alphabet, ValidateRefGlob and ValidatePathGlob each compared with the reference validator (accept/reject), ref=>path implication, column oracle; all strings <= 3 additionally through Linter.Lint; class = (validator, reference verdict, reference reason); non-trivial = invalid by the reference"
+	r.Extra["rule"] = "all strings of length <= n over the 19-symbol alphabet, ValidateRefGlob and ValidatePathGlob each compared with the reference validator (accept/reject), ref=>path implication, column oracle; all strings <= 3 additionally through Linter.Lint in 3 layouts (the same string under ref and path keys of one and of two events, both orders); class = (validator, reference verdict, reference reason); non-trivial = invalid by the reference"
 	r.Extra["assumptions"] = []string{"characters outside the alphabet are represented by a, b (ordinary), space/~ (ref-forbidden), \\x01 and TAB (control characters below and next to the line breaks), é (non-ASCII)", "appendix B don't-care classes are not compared"}
 
 	if raw := vReplayInput(); raw != nil {
